@@ -18,6 +18,8 @@ def sh(cmd, **kw):
 if not os.path.isdir(wt):
     subprocess.run(["git", "-C", "/repo", "worktree", "add", "--detach", wt, "HEAD"], check=True)
 sh(["git", "checkout", "--", "."])
+# agents may leave their demonstration (untracked) in a tests/ directory: the crate's own tests must run without it
+sh(["git", "clean", "-fdq", "-e", "seed_out", "-e", "seed_logs", "-e", "seed_*"])
 tname = os.path.splitext(os.path.basename(demo))[0]
 dst = os.path.join(wt, cdir, "tests", os.path.basename(demo))
 res = {}
